@@ -122,8 +122,10 @@ def obligations():
         # the candidate features handed to the search are exactly the drawn subset (cast to intp), nothing filtered out of it
         feat = a[9] if len(a) == 10 else None
         drawn = ("callres", chs[0][1], chs[0][2], chs[0][3], chs[0][4]) if chs else None
-        okf = (drawn is not None and isinstance(feat, tuple) and feat[:1] == ("callres",) and feat[2].endswith(".astype")
-               and [e for e in calls if e[1] == feat[1]][0][6] == ("attr", drawn, "astype"))
+        okf = drawn is not None and (feat == drawn or (
+            isinstance(feat, tuple) and feat[:1] == ("callres",) and (
+                (feat[2].endswith(".astype") and [e for e in calls if e[1] == feat[1]][0][6] == ("attr", drawn, "astype"))
+                or (feat[2] in ("np.asarray", "np.array", "np.ascontiguousarray") and feat[3][:1] == (drawn,)))))
         ob("the candidate features of the search are exactly the drawn subset (every drawn feature is scanned)", bool(okc and okf),
            {"features argument": fx.show(feat)[:200] if feat is not None else None})
         if not ok_args:
